@@ -57,12 +57,16 @@ class Lsn:
     def __init__(self, name):
         self.name = name
         self.closed = 0
+        self.shut = 0
 
     def getsockname(self):
         return self.name
 
     def close(self):
         self.closed += 1
+
+    def shutdown(self, how):
+        self.shut += 1               # acts on the socket shared with every process that inherited it
 
 
 class PidRec:
@@ -147,6 +151,8 @@ def master(sig: int, d: List[int], stub: List[bool], reexec: bool, child_of: boo
     # listeners closed exactly once, unix socket file removed iff no other master shares it
     if any(l.closed != 1 for l in lsn) or arb.LISTENERS:
         return False
+    if (reexec or child_of) and any(l.shut for l in lsn):
+        return False                                    # another master is serving on these very sockets
     if (unlinked == ["/run/g.sock"]) != (not reexec and not child_of):
         return False
     if unlinked not in ([], ["/run/g.sock"]):
@@ -248,6 +254,11 @@ def sync_term(t: int, cut: int, nconn: int) -> bool:
         if counter[0] == t and not term_at:
             term_at.append(where)
             w.handle_exit(signal.SIGTERM, None)
+        elif CASE.get("again") and len(term_at) == 1 and counter[0] >= t + CASE["again"]:
+            # the master asks again on every turn of its loop (manage_workers / stop): a second TERM must not cut the
+            # request that is being answered
+            term_at.append("again")
+            w.handle_exit(signal.SIGTERM, None)
         counter[0] += 1
 
     def app(environ, start_response):
@@ -293,7 +304,10 @@ def sync_term(t: int, cut: int, nconn: int) -> bool:
     S.os = ns("S.os", getppid=lambda: 1, read=lambda fd, n: b"")
     S.util = ns("S.util", close_on_exec=lambda fd: None, close=saved[2].close, reraise=saved[2].reraise)
     try:
-        w.run_for_one(w.timeout)
+        try:
+            w.run_for_one(w.timeout)
+        except SystemExit:
+            w.alive = False                # leaving through sys.exit() is fine as long as nothing accepted is cut
     finally:
         S.select, S.os, S.util = saved
     if w.alive:
@@ -594,7 +608,9 @@ OBLIGATIONS = [
        bound="start with a pid file, 0..2 reloads that keep or move the path, then TERM / INT / QUIT: real Arbiter.run/reload/halt "
              "with the real Pidfile class on the FS stub"),
     Ob("C04.master.twin", "master_twin", cases=[{"n": 2, "sig": 0, "reexec": False, "child_of": False}], expect="refute", timeout=300),
-    Ob("C04.sync_term", "sync_term", cases={"quick": [{"tmax": 8, "nconn": 2}], "thorough": [{"tmax": 12, "nconn": 3}]},
+    Ob("C04.sync_term", "sync_term", cases={"quick": [{"tmax": 8, "nconn": 2}, {"tmax": 8, "nconn": 2, "again": 1}, {"tmax": 8, "nconn": 1, "again": 2}],
+                                            "thorough": [{"tmax": 12, "nconn": 3}, {"tmax": 12, "nconn": 2, "again": 1}, {"tmax": 12, "nconn": 2, "again": 2},
+                                                         {"tmax": 12, "nconn": 2, "again": 3}]},
        timeout=900, bound="<=2 (3) connections, request head whole or split at offset 5/16/len-1 into 2 reads, TERM at any of "
                           "the first 9 (13) stub boundaries {accept, recv, app, send, select}"),
     Ob("C04.sync_term.twin", "sync_term_twin", cases=[{"tmax": 8, "nconn": 2}], expect="refute", timeout=300),
